@@ -93,6 +93,7 @@ type FnTrans struct {
 	unmodelled map[ssa.Value]bool
 	atOrd      map[string]int
 	callOrdSrc map[*ssa.CallCommon]int
+	callSites  map[string]bool // "<ordinal> <name>" of the calls in the body
 	atUsed     map[int]bool
 }
 
@@ -674,6 +675,16 @@ func (tr *FnTrans) run() {
 		}
 	}
 
+	if tr.fc != nil {
+		// a binding that names no call of the body: that call is never executed
+		tr.callOrdinal("")
+		for _, ai := range tr.fc.At {
+			f := strings.Fields(ai.Anchor)
+			if ai.What == "bind" && len(f) == 3 && f[0] == "call" && !tr.callSites[f[1]+" "+f[2]] {
+				tr.binds[ai.Text] = Val{K: KBool, T: "false", Typ: types.Typ[types.Bool]}
+			}
+		}
+	}
 	tr.ghostLocals = map[string]string{}
 	if tr.fc != nil {
 		for _, gl := range tr.fc.GhostLocals {
@@ -772,7 +783,10 @@ func (tr *FnTrans) afterCall(items []AtItem) {
 			}
 			ec.env[qname] = qv
 			v := ec.eval(ai.E)
-			vc.fact(fmt.Sprintf("(forall ((%s %s)) (! (= (select %s %s) %s) :pattern ((select %s %s))))", qv.T, ks, n, qv.T, v.T, n, qv.T), "")
+			// instantiated by reads of the new and of the previous version
+			// (an accumulator's old elements stay in it)
+			prev := vc.hget(tr.cur, comp)
+			vc.fact(fmt.Sprintf("(forall ((%s %s)) (! (= (select %s %s) %s) :pattern ((select %s %s)) :pattern ((select %s %s))))", qv.T, ks, n, qv.T, v.T, n, qv.T, prev, qv.T), "")
 		}
 		tr.cur.m[comp] = n
 	}
@@ -1266,7 +1280,28 @@ func (tr *FnTrans) setEdge(from, to *ssa.BasicBlock, cond string) {
 // the n-th call (in source order) of a function or method with the given
 // simple name. Locals are resolved through the debug references.
 func (tr *FnTrans) atCall(simple string) {
-	if tr.fc == nil || tr.scan {
+	if tr.fc == nil {
+		return
+	}
+	if tr.scan {
+		// scan pass: only record which ghost locals the call site updates, so
+		// that loops around it forget them at their heads
+		ord := tr.callOrdinal(simple)
+		for _, ai := range tr.fc.At {
+			f := strings.Fields(ai.Anchor)
+			if len(f) != 3 || f[0] != "call" || f[2] != simple || f[1] != fmt.Sprint(ord) || ai.What != "ghost" {
+				continue
+			}
+			tgt := ai.Target
+			if ix, ok := tgt.(*EIndex); ok {
+				tgt = ix.X
+			}
+			if id, ok := tgt.(*EIdent); ok {
+				if comp, ok := tr.ghostLocals[id.Name]; ok {
+					tr.cur.m[comp] = tr.vc.fresh(comp+"@scan", tr.vc.compSort[comp])
+				}
+			}
+		}
 		return
 	}
 	ord := tr.callOrdinal(simple)
@@ -2000,10 +2035,12 @@ func (tr *FnTrans) callOrdinal(simple string) int {
 				}
 			}
 		}
-		for _, cs := range by {
+		tr.callSites = map[string]bool{}
+		for n, cs := range by {
 			sort.SliceStable(cs, func(i, j int) bool { return cs[i].Pos() < cs[j].Pos() })
 			for i, c := range cs {
 				tr.callOrdSrc[c] = i + 1
+				tr.callSites[fmt.Sprintf("%d %s", i+1, n)] = true
 			}
 		}
 	}
